@@ -5,14 +5,16 @@
 -/
 import J2M.Proofs.Union
 import J2M.Proofs.OptimizeIdem
+import J2M.Proofs.OptimizeNF
+import J2M.Proofs.OptimizeErr
 namespace J2M.C08
-open J2M
+open J2M J2M.C08P
 
 /-! ## 1. `DUnion.__init__` : flat, duplicate-free, literals folded -/
 
 /-- `_extract_nested_types` really removes every nested union. -/
 theorem flattenUnion_flat (ts : List Ty) : ∀ t ∈ flattenUnion ts, t.isUnion = false :=
-  J2M.flattenUnion_flat ts
+  C08P.flattenUnion_flat ts
 
 /--
   For *all* member lists `ts` (no hypothesis): the members of `DUnion(*ts)`
@@ -52,7 +54,7 @@ example :
 It implies `nf` (`nfc_nf`). -/
 
 /-- the canonical normal form is a normal form in the sense of `Sem.nf` -/
-theorem nfc_nf (cfg : GenCfg) (t : Ty) (h : nfc cfg t = true) : nf t = true := J2M.nfc_nf cfg t h
+theorem nfc_nf (cfg : GenCfg) (t : Ty) (h : nfc cfg t = true) : nf t = true := C08P.nfc_nf cfg t h
 
 /--
   `optimize_type` is the identity on canonical normal forms: whatever the comparison environment `e`
@@ -69,7 +71,7 @@ theorem optimize_idem_fuelFor (cfg : GenCfg) (e : EqEnv) (t : Ty) (h : nfc cfg t
 
 /-- `registry.resolve(k)` of a single kind is that kind (proved, used inside `optimize_idem`) -/
 theorem resolve_single (reg : StrRegistry) (k : String) (n : Nat) : resolve reg [k] (n + 1) = .ok [k] :=
-  J2M.resolve_single reg k n
+  C08P.resolve_single reg k n
 
 /-- a registry with `IntString ⊂ FloatString` -/
 def exCfg : GenCfg :=
@@ -92,5 +94,110 @@ example (e : EqEnv) : optimize exCfg e (Ty.fuelFor exNF) exNF = .ok exNF :=
 
 /-- the order matters: the same union with the literal first is *not* a fixed point (it is re-ordered) -/
 example : nfc exCfg (.union [.lit false ["x"], .int]) = false := by decide
+
+/-! ## 3. Every inferred type is in normal form
+
+`Raw cfg` (defined in `J2M/Proofs/OptimizeRaw.lean`) describes what `_detect_type` and `merge_field_sets`
+hand to `optimize_type`:
+* `rawD` (detect level): no `Optional`/tuple/pointer; pseudo-types registered; a `StringLiteral` is either
+  overflowed-and-emptied or non-empty within the limits; unions have the shape `DUnion.__init__` guarantees
+  (`unionShape`: non-empty, flat, no overflowed/empty literal member, distinct hash strings, ≤ 1 literal).
+  `unknown` is accepted anywhere (more liberal than `detect`, which only produces it under list/dict).
+* `rawF` (field of a merged model): `rawD`, possibly under one `Optional`.
+* `Raw`: a field dict whose fields are `rawF`, or a `rawF` type.
+The normal form is `nf` of `Sem.lean`; note that it admits `Optional[Unknown]` (`.opt .unknown`), the
+result of the repaired `_optimize_union` for "only empty containers and nulls" (see the example below). -/
+
+/-- `_detect_type` only produces raw metadata -/
+theorem detect_raw (cfg : GenCfg) (o : GenOracles) (cd : Bool) (v : Json) (t : Ty)
+    (h : detect cfg o cd v = .ok t) : Raw cfg t = true :=
+  rawD_Raw (detect_rawD cfg o cd v t h)
+
+/-- `merge_field_sets` of detected field sets is raw -/
+theorem merge_raw (cfg : GenCfg) (e : EqEnv) (sets : List Fields) (fields : Fields)
+    (hsets : ∀ m ∈ sets, ∀ kv ∈ m, rawD cfg kv.2 = true)
+    (h : mergeFieldSets cfg.lit e sets = .ok fields) : Raw cfg (.obj fields) = true :=
+  (mergeFieldSets_rawF hsets h).Raw
+
+/-- **C08, main part**: whatever the fuel and the comparison environment, if `optimize_type` returns on raw
+    metadata, the result is in normal form. -/
+theorem optimize_nf (cfg : GenCfg) (e : EqEnv) (fuel : Nat) (t t' : Ty)
+    (hr : Raw cfg t = true) (h : optimize cfg e fuel t = .ok t') : nf t' = true :=
+  (optimize_nf_all cfg e fuel).1 t t' hr h
+
+/-- and so is every result of `MetadataGenerator.generate` -/
+theorem generate_nf (cfg : GenCfg) (o : GenOracles) (samples : List Json) (t : Ty)
+    (h : generate cfg o samples = .ok t) : nf t = true :=
+  generate_nf_aux h
+
+/-- non-vacuity of `Raw`: a merged model with every kind of field -/
+def exRaw : Ty :=
+  .obj [("a", .opt (.union [.list .unknown, .list .null])),
+        ("b", .union [.int, .float, .obj [("k", .lit false ["x"])], .obj [("k", .ser "IntString")],
+                      .ser "IntString", .ser "FloatString", .lit false ["u", "v"]]),
+        ("c", .opt .null), ("d", .lit true []), ("e", .dict (.union [.null, .str]))]
+
+set_option linter.unusedSimpArgs false in
+theorem exRaw_raw : Raw exCfg exRaw = true := by
+  simp +decide [Raw, rawF, rawD, rawDList, rawDFields, exRaw, exCfg, unionShape, nodupStr, hashStr, hashStrs,
+    hashFields, litRawOk, Ty.isBadLit, Ty.isUnion, Ty.isLit]
+
+/-! ## 4. "never fails" for the first pass
+
+The full statement `Raw t → ∃ t', optimize cfg e (Ty.fuelFor t) t = .ok t'` is FALSE for the model:
+with a registry whose `replaces` relation has a cycle, `resolve` returns the empty set and
+`next(iter(str_types))` raises `StopIteration`. -/
+
+/-- the full "never fails" statement (false, see the witness below) -/
+def optimize_total_Statement : Prop :=
+  ∀ (cfg : GenCfg) (e : EqEnv) (t : Ty), Raw cfg t = true → ∃ t', optimize cfg e (Ty.fuelFor t) t = .ok t'
+
+/-- a registry where `A` replaces `B` and `B` replaces `A` -/
+def cycCfg : GenCfg := ⟨⟨15, 20⟩, ⟨["A", "B"], [("A", "B"), ("B", "A")], []⟩, [], []⟩
+def anyEnv : EqEnv := ⟨StrOracle.default, fun i => i, fun _ => none, 10⟩
+
+set_option linter.unusedSimpArgs false in
+theorem cyc_raw : Raw cycCfg (.union [.ser "A", .ser "B"]) = true := by
+  simp +decide [Raw, rawF, rawD, rawDList, cycCfg, unionShape, nodupStr, hashStr, Ty.isBadLit, Ty.isUnion,
+    Ty.isLit]
+
+set_option linter.unusedSimpArgs false in
+theorem cyc_fails (n : Nat) :
+    optimize cycCfg anyEnv (n + 2) (.union [.ser "A", .ser "B"]) = .error .stopIteration := by
+  rw [optimize, optimizeUnion_eq]
+  simp +decide [splitMembers, cycCfg, stageMerge, stageInt, stageStr, stageList, stageDict, resolve, dedupStr,
+    replacedIn, Ty.isStr, bind, Except.bind, pure, Except.pure]
+
+theorem optimize_total_false : ¬ optimize_total_Statement := by
+  intro h
+  obtain ⟨t', ht'⟩ := h cycCfg anyEnv _ cyc_raw
+  have : Ty.fuelFor (.union [.ser "A", .ser "B"]) = 38 + 2 := by
+    simp [Ty.fuelFor, Ty.size, Ty.sizeList]
+  rw [this, cyc_fails] at ht'
+  cases ht'
+
+/-- the `replaces` relation of the registry is acyclic (true for the library's default registry) -/
+abbrev RegRanked := C08P.RegRanked
+
+/-- `optimize_total_partial`, part 1: on raw metadata the only possible failures are running out of fuel,
+    a `RecursionError` raised by `==` inside `merge_field_sets`, or the `StopIteration` above;
+    in particular never `IndexError` (no empty union is ever indexed). -/
+theorem optimize_total_partial (cfg : GenCfg) (e : EqEnv) (fuel : Nat) (t : Ty) (err : PyErr)
+    (hr : Raw cfg t = true) (h : optimize cfg e fuel t = .error err) :
+    err = .outOfFuel ∨ err = .recursion ∨ err = .stopIteration :=
+  optimize_errors_raw cfg e fuel t err hr h
+
+/-- part 2: with an acyclic registry `StopIteration` is impossible too (`resolve` terminates within its fuel
+    and returns a non-empty set — both proved). What is NOT proved: that `Ty.fuelFor t` is always enough fuel,
+    and `RecursionError` depends on the environment `e` (its `==` fuel). -/
+theorem optimize_total_partial_ranked (cfg : GenCfg) (e : EqEnv) (hreg : RegRanked cfg.reg) (fuel : Nat)
+    (t : Ty) (err : PyErr) (hr : Raw cfg t = true) (h : optimize cfg e fuel t = .error err) :
+    err = .outOfFuel ∨ err = .recursion :=
+  optimize_errors_ranked cfg e hreg fuel t err hr h
+
+/-- non-vacuity: the example registry is ranked -/
+example : RegRanked exCfg.reg :=
+  ⟨fun s => if s = "IntString" then 0 else 1, by
+    intro a b h; simp [exCfg] at h; obtain ⟨rfl, rfl⟩ := h; simp⟩
 
 end J2M.C08
